@@ -80,11 +80,14 @@ class Db:
         self.open_connections = []
 
 
-def db_of(I):
-    w = I.vc.world
+def db_of_world(w, vc=None):
     if getattr(w, 'db', None) is None:
-        w.db = Db(I.vc)
+        w.db = Db(vc or cur())
     return w.db
+
+
+def db_of(I):
+    return db_of_world(I.vc.world, I.vc)
 
 
 # ----------------------------------------------------------------------------- expression / statement ASTs
@@ -655,6 +658,8 @@ class SessionObj:
                 # a plain INSERT fails as a whole when a key is already indexed or occurs twice in the batch
                 vc.assume(Forall(lambda k: implies(b_and(b.keys.has(k), T.has(k)), clash)))
                 vc.assume(implies(b.dup, clash))
+                kw = vc.key(SStr.fresh('clashing_key'))
+                vc.assume(implies(clash, b_or(b.dup, b_and(b.keys.has(kw), T.has(kw)))))
                 if vc.branch(clash, label='insert:IntegrityError'):
                     EM.effect(I, 'sql_integrity_error', session=self, batch=b)
                     raise_py('IntegrityError', origin='insert')
